@@ -988,6 +988,18 @@ def check_against(er, vals, values, res, obs, when):
 
 
 # ------------------------------------------------------------------ run
+def touch_public_state(el, er):
+    """What a user may do with the documented public attributes between fills and compute
+    without changing the element: read GroupBy.groups (also a key that is not there)."""
+    if er[0] == "groupby" and hasattr(el, "groups"):
+        try:
+            el.groups["__no_such_group__"]
+        except KeyError:
+            pass
+        len(el.groups)
+        "x" in el.groups
+
+
 def run_agg(r, obs):
     er, vals = r["el"], r["vals"]
     lab = label(er)
@@ -1025,6 +1037,7 @@ def run_agg(r, obs):
     values = [mkval(vr) for vr in vals]
     for v in values:
         el2.fill(v)
+    touch_public_state(el2, er)
     res = outcome(results_method(el2), hostile)
     check_against(er, vals, values, res, obs, "single compute")
 
